@@ -148,7 +148,7 @@ pub fn run_c04(tier: &str, seed: u64, shard: u64, nshards: u64, scale: f64, stat
     let thorough = tier == "thorough";
     let mut r = Rng::derive(seed, 0xC04, shard);
     // exhaustive targets
-    let l = if thorough { 4 } else { 3 };
+    let l = if thorough { 5 } else { 3 };
     let k = C04_ALPHA.len() as u64;
     let total: u64 = (0..=l).map(|i| k.pow(i)).sum();
     let mut idx = shard;
@@ -432,7 +432,7 @@ pub fn run_c05(tier: &str, seed: u64, shard: u64, nshards: u64, scale: f64, stat
     let mut r = Rng::derive(seed, 0xC05, shard);
     // exhaustive: line lists up to 3 lines over 6 line kinds x style x chomp x parent x eof x explicit
     let kinds6 = ["text", "", " more", "   ", "- x", "# c"];
-    let maxl = 3u32;
+    let maxl = if thorough { 5u32 } else { 3u32 };
     let k = kinds6.len() as u64;
     let total: u64 = (0..=maxl).map(|i| k.pow(i)).sum();
     let mut idx = shard;
